@@ -13,13 +13,13 @@ import (
 
 func TestC10(t *testing.T) {
 	runProp(t, "C10", func(t *rapid.T) *core.Case {
-		p := gen.Profile{MaxDepth: 3, Metrics: []string{"m", "m", "n"}}
+		p := gen.Profile{MaxDepth: 3, Metrics: []string{"m", "m", "n"}, Nameless: true}
 		if rapid.IntRange(0, 1).Draw(t, "aggfocus") == 0 {
 			// aggregation-rooted queries over few metric names: the groups are then split across partitions
 			p.Focus = "agg"
 			p.MaxDepth = 2
 		}
-		c := drawGeneral(t, p, gen.WindowOpts{}, gen.DataOpts{Specials: true, MaxSeries: 12, MinSeries: 3, Histogram: true, Metrics: []string{"m", "m", "n"}})
+		c := drawGeneral(t, p, gen.WindowOpts{}, gen.DataOpts{Specials: true, MaxSeries: 12, MinSeries: 3, Histogram: true, Metrics: []string{"m", "m", "n"}, Twins: true})
 		c.NParts = rapid.IntRange(1, 4).Draw(t, "nparts")
 		c.Parts = make([]int, len(c.Series))
 		for i := range c.Parts {
